@@ -85,6 +85,10 @@ class Gen:
         r = self.r
         if ty == "Nat":
             v = r.pick(NAT_POOL if (self.cfg["big_lits"] and r.chance(1, 4)) else NAT_SMALL)
+            if self.cfg["big_lits"] and r.chance(1, 6):
+                # a natural of random bit length 31..63 (every digit count of marshal's long format)
+                bits = 31 + r.below(33)
+                v = (1 << (bits - 1)) | (r.next() & ((1 << (bits - 1)) - 1))
             if v >= 2**31:
                 self.features.add("big-nat")
             return ("lit", "Nat", v)
